@@ -19,7 +19,7 @@ pub fn run(ctx: &Ctx, rec: &mut Recorder) -> Result<(), String> {
     let path = ctx.out.join(format!("c20-{}.jsonl", ctx.shard));
     std::fs::create_dir_all(&ctx.out).ok();
     let mut f = std::io::BufWriter::new(std::fs::File::create(&path).map_err(|e| e.to_string())?);
-    let nprog = ctx.qt(48u64, 2000u64);
+    let nprog = ctx.qt(48u64, 300u64);
     let cfgs = docgen::configs();
     for pno in 0..nprog {
         // every program is handled by two different shards (= two processes with
